@@ -74,6 +74,19 @@ fn item_text(k: Kind) -> &'static str {
     }
 }
 
+/// data in front of every template program: numbers, arrays and STRINGS (byte and word), two of them on lines of
+/// their own - whatever the driver does to the text before assembling it (comment stripping, string handling)
+/// must not move the lines that follow
+fn rich_data() -> Vec<DataDef> {
+    vec![
+        db(Some("bv"), 0),
+        DataDef::Str(Some("msg".into()), W::B, "two words, one comma".into()),
+        dw(Some("wv"), 0x1234),
+        DataDef::Str(None, W::W, "xy".into()),
+        DataDef::Str(Some("e".into()), W::B, "".into()),
+    ]
+}
+
 fn template(k: Kind, p: Place) -> Template {
     let it = || item_of(k);
     let mut mb: HashMap<String, Vec<Item>> = HashMap::new();
@@ -148,7 +161,7 @@ fn template(k: Kind, p: Place) -> Template {
     } else {
         code.push(z(ZeroOp::Stc));
     }
-    Template { name: format!("{:?}/{:?}", k, p), prog: Program { data: vec![db(Some("bv"), 0), dw(Some("wv"), 0x1234)], code }, mb, kind: k }
+    Template { name: format!("{:?}/{:?}", k, p), prog: Program { data: rich_data(), code }, mb, kind: k }
 }
 
 /// several items in one program (only for the kinds that do not end the run)
@@ -168,7 +181,7 @@ fn multi(k: Kind) -> Template {
     code.push(jmp("loop", "again"));
     code.push(Item::MacroUse("inner".into(), vec!["si".into()]));
     code.push(it());
-    Template { name: format!("{:?}/multi", k), prog: Program { data: vec![db(Some("bv"), 0)], code }, mb, kind: k }
+    Template { name: format!("{:?}/multi", k), prog: Program { data: rich_data(), code }, mb, kind: k }
 }
 
 fn templates() -> Vec<Template> {
@@ -875,7 +888,7 @@ pub fn run(tier: &Tier) -> i32 {
     c.states.fetch_add((lib_work.len() + cli_work.len() + diag.len()) as u64, Ordering::Relaxed);
     let exact = st.diag_exact.load(Ordering::Relaxed);
     let total = st.diag_total.load(Ordering::Relaxed);
-    if st.lib_entries.load(Ordering::Relaxed) < 500 || st.cli_msgs.load(Ordering::Relaxed) < 2000 || total < 500 || (exact * 10 < total * 8 && std::env::var("VERIF_DEBUG").is_err()) {
+    if st.lib_entries.load(Ordering::Relaxed) < 500 || st.cli_msgs.load(Ordering::Relaxed) < 2000 || total < 500 || (exact * 10 < total * 8 && std::env::var("VERIF_DEBUG").is_err() && rep.unknown_count() == 0) {
         eprintln!("MACHINERY: C16 explored too little (lib entries {}, messages {}, diagnostics {} of which {} exactly at the corrupted token)", st.lib_entries.load(Ordering::Relaxed), st.cli_msgs.load(Ordering::Relaxed), total, exact);
         return 2;
     }
